@@ -40,6 +40,10 @@ CHECKS = {
    technique="runtime monitor with three oracle layers: exact half-even digit oracle in big.Int (L1), byte-for-byte differential against the toolchain's fmt/strconv on a float64 holding the same exact value (L2), Decimal.Append vs Sprintf equality (L3)",
    text="Sprintf, Decimal.Append, Format and Append are observed over the enumerated spec space verb{e,E,f,F,g,G} x precision{absent,0..40} x width{absent,1..40} x 32 flag sets (quick: half of the 330k combinations, thorough: all, 3 passes) on values engineered for ties, carries, empty kept prefixes, g/G switch-over, zeros, 35-digit coefficients and long outputs, and on dyadic values exactly held by a float64 for the layout differential. Exploration.",
    ref="DESIGN.md §5 C07"),
+ "C08": dict(
+   technique="runtime monitor: exact big.Int quantisation oracle over generated (value, dp, mode) workloads, with idempotence and package-vs-method observers",
+   text="Round (6 modes), Ceil, Floor and the package Round/Trunc/Ceil/Floor are observed with dp aligned to every digit position of the operand, half patterns over several dropped digits, carries, dp in -7000..7000 at both exponent ends (quantum above 1e6111), int extremes, zeros and specials; each result is judged against the exact quantisation (incl. the pinned below-a-tenth-of-the-quantum rule), sign, Inf only beyond MaxFinite, and re-application must be a fixed point. Exploration.",
+   ref="DESIGN.md §5 C08"),
 }
 
 PENDING = "monitor for this property is not built yet in this revision (work in progress; see DESIGN.md §5 for the planned monitor)"
